@@ -63,12 +63,14 @@ impl Check for C17 {
                 }
                 Tier::Thorough => k,
             };
-            // declared lengths below the family size are C12's business
-            l = want.max(FAMILY_SIZE[fam]);
+            // every declared length, including those too small for the family: the tree answers
+            // those with a terminal error as soon as the fixed part is complete, which this
+            // property does not judge; an incomplete answer would have to be exact and honoured
+            l = want;
         } else {
             pair = rng.below(24) as u8;
             let fam = ((pair / 2) % 4) as usize;
-            let min = FAMILY_SIZE[fam];
+            let min = if rng.chance(1, 8) { 0 } else { FAMILY_SIZE[fam] };
             l = match rng.below(10) {
                 0 => min,
                 1 => min + 1,
@@ -317,6 +319,6 @@ impl Check for C17 {
         })
     }
     fn assumptions(&self) -> Vec<String> {
-        vec!["declared lengths below the family size are not truncated headers but invalid ones (C12)".into()]
+        vec!["for declared lengths below the family size the tree reports a terminal error once the fixed part is complete; this property judges only incomplete results and what follows them, so those runs end there (counted under skipped)".into()]
     }
 }
